@@ -748,10 +748,11 @@ theorem serve_plain_execute (n : Node) (r : ExecReq) (hov : n.ov = none) :
           (n, .rows ⟨false, some m.mid, m.cols.length, m.cols, g.2, g.1⟩)
         else if r.skip = true then (n, .rows ⟨true, none, m.cols.length, [], g.2, g.1⟩)
         else (n, .rows ⟨false, none, m.cols.length, m.cols, g.2, g.1⟩) := by
-  simp only [serve, hov, isExecOv]
-  split
-  · rfl
-  · simp
+  have h1 : ∀ o : Ov, ((none : Option Ov) == some o) = false := fun o => rfl
+  cases h : lookupId r.id n.prepared with
+  | none => simp [serve, h]
+  | some s =>
+    simp only [serve, h, hov, isExecOv, h1, Bool.false_eq_true, ↓reduceIte, Bool.false_and, Bool.not_false, Bool.and_true]
 
 theorem serve_plain_prepare (n : Node) (text : String) (s : Nat) (hov : n.ov = none)
     (hs : stmtOfText text = some s) (hpf : (n.st s).prepFail = false) :
@@ -885,9 +886,9 @@ private theorem recv_objs_good (st : State) (k : Nat) (hinv : Inv colsOf st) :
         split
         · exact hobjs
         · apply goodMeta_setCur colsOf _ _ _ hobjs
-          rcases handleNewId_either (st.objs op.obj).cur (metaUsed c r) with h | h <;> rw [h]
+          rcases handleNewId_either (st.objs op.obj).cur (metaUsed (st.node op.node).ext c r) with h | h <;> rw [h]
           · exact hobjs _
-          · exact goodMeta_metaUsed colsOf c r hc hresp
+          · exact goodMeta_metaUsed colsOf _ c r hc hresp
       | _ => simpa [recv, hck, finish, send, setCaller, handleResp] using hobjs
     | exec2 op c =>
       have hc : CachedOK colsOf c := hk.1.1
@@ -897,9 +898,9 @@ private theorem recv_objs_good (st : State) (k : Nat) (hinv : Inv colsOf st) :
         split
         · exact hobjs
         · apply goodMeta_setCur colsOf _ _ _ hobjs
-          rcases handleNewId_either (st.objs op.obj).cur (metaUsed c r) with h | h <;> rw [h]
+          rcases handleNewId_either (st.objs op.obj).cur (metaUsed (st.node op.node).ext c r) with h | h <;> rw [h]
           · exact hobjs _
-          · exact goodMeta_metaUsed colsOf c r hc hresp
+          · exact goodMeta_metaUsed colsOf _ c r hc hresp
       | _ => simpa [recv, hck, finish, setCaller, handleResp] using hobjs
     | execPrep op =>
       cases resp with
@@ -1028,7 +1029,7 @@ theorem inv_step (st : State) (x : Step) (hinv : Inv colsOf st)
       · intro n'
         simp only [upd]
         split
-        · intro s; rw [serve_st]; exact hnodes n s
+        · exact ⟨serve_ov _ _ (hnodes n).1, fun s => by rw [serve_st]; exact (hnodes n).2 s⟩
         · exact hnodes n'
       · intro j
         simp only []
@@ -1104,7 +1105,7 @@ theorem decode_metadata_faithful (st : State) (hinv : Inv colsOf st) (k : Nat) (
     ∃ s c, lookupId r.id (st.node n).prepared = some s ∧ cached = some c ∧
       c.cols = ((st.node n).st s).smeta.cols ∧
       rr.rows = (genRows ((st.node n).st s).smeta.cols (r.values.headD 0) r.pageSize r.ps).1 ∧
-      metaUsed cached rr = c := by
+      metaUsed true cached rr = c := by
   obtain ⟨hnodes, _, hcallers⟩ := hinv
   have hk := hcallers k
   have hpar : CachedOK colsOf cached ∧ ParamsOK true cached r := by
@@ -1114,12 +1115,12 @@ theorem decode_metadata_faithful (st : State) (hinv : Inv colsOf st) (k : Nat) (
     · obtain ⟨⟨hc, hp⟩, _⟩ := hk
       have := (hp n r hw).2; rw [hext] at this; exact ⟨hc, this⟩
   obtain ⟨hc, hskip, hmid⟩ := hpar
-  simp only [serve] at hserve
-  split at hserve
-  · simp at hserve
-  · rename_i s hs
+  rw [serve_plain_execute _ _ (hnodes n).1] at hserve
+  cases hs : lookupId r.id (st.node n).prepared with
+  | none => simp [hs] at hserve
+  | some s =>
     refine ⟨s, ?_⟩
-    simp only [hext, Bool.true_and] at hserve
+    simp only [hs, hext, Bool.true_and] at hserve
     split at hserve
     · simp only [Resp.rows.injEq] at hserve; subst hserve; simp at hnm
     · rename_i hch
@@ -1131,16 +1132,16 @@ theorem decode_metadata_faithful (st : State) (hinv : Inv colsOf st) (k : Nat) (
         cases cached with
         | none => simp [hsk] at hskip
         | some c =>
-          refine ⟨c, hs, rfl, ?_, ?_, ?_⟩
+          refine ⟨c, rfl, rfl, ?_, ?_, ?_⟩
           · obtain ⟨hg, hcc⟩ := hc c rfl
             simp only at hm
             rw [hm] at hmideq
             simp only [Option.some.injEq] at hmideq
             cases hci : c.id with
-            | none => rw [hci] at hmideq; simp at hmideq; exact absurd hmideq (hnodes n s).2
+            | none => rw [hci] at hmideq; simp at hmideq; exact absurd hmideq ((hnodes n).2 s).2
             | some i =>
               rw [hci] at hmideq; simp at hmideq
-              rw [hg i hci hcc, hmideq]; exact ((hnodes n s).1).symm
+              rw [hg i hci hcc, hmideq]; exact (((hnodes n).2 s).1).symm
           · subst hserve; rfl
           · subst hserve; simp [metaUsed]
       · simp only [Resp.rows.injEq] at hserve; subst hserve; simp at hnm
@@ -1155,7 +1156,7 @@ theorem decode_metadata_faithful_all_histories (xs : List Step) (st0 : State) (h
     ∃ s c, lookupId r.id ((exec st0 xs).node n).prepared = some s ∧ cached = some c ∧
       c.cols = (((exec st0 xs).node n).st s).smeta.cols ∧
       rr.rows = (genRows (((exec st0 xs).node n).st s).smeta.cols (r.values.headD 0) r.pageSize r.ps).1 ∧
-      metaUsed cached rr = c :=
+      metaUsed true cached rr = c :=
   decode_metadata_faithful colsOf (exec st0 xs) (inv_exec colsOf xs st0 h0 hev) k op cached n r rr hpc hw hext hserve hnm
 
 end EndToEnd
@@ -1169,10 +1170,7 @@ def NoIdResp : Resp → Prop
   | _ => True
 
 theorem serve_noext (n : Node) (r : Req) (h : n.ext = false) : NoIdResp (serve n r).2 := by
-  cases r with
-  | prepare t => simp only [serve]; split <;> (try split) <;> simp [NoIdResp, h]
-  | execute r => simp only [serve, h]; split <;> (try split) <;> (try split) <;> simp_all [NoIdResp]
-  | batch b => simp only [serve]; split <;> simp [NoIdResp]
+  cases r <;> simp only [serve, h] <;> (repeat' split) <;> simp_all [NoIdResp]
 
 def NoExtCaller (c : Caller) : Prop :=
   (match c.pc with
@@ -1206,13 +1204,13 @@ private theorem noext_objs_keep (st : State) (o' : Nat) (m : RMeta) (hm : m = (s
   · exact h o
 
 private theorem noext_metaUsed_id (cached : Option RMeta) (r : RowsResp) (hc : ∀ cm, cached = some cm → cm.id = none)
-    (hr : r.newId = none) : (metaUsed cached r).id = none := by
+    (_hr : NoIdResp (.rows r)) : (metaUsed false cached r).id = none := by
   unfold metaUsed
   split
   · cases cached with
     | none => rfl
     | some c => exact hc c rfl
-  · exact hr
+  · rfl
 
 theorem noext_step (st : State) (x : Step) (hinv : NoExtInv st) : NoExtInv (step st x).1 := by
   obtain ⟨hnodes, hobjs, hcallers⟩ := hinv
@@ -1303,7 +1301,7 @@ theorem noext_step (st : State) (x : Step) (hinv : NoExtInv st) : NoExtInv (step
         | exec1 op c =>
           cases resp with
           | rows r =>
-            simp only [recv, hck, finish, setCaller, handleResp]
+            simp only [recv, hck, finish, setCaller, handleResp, hnodes op.node]
             split
             · exact hobjs
             · exact noext_objs_keep _ _ _
@@ -1312,7 +1310,7 @@ theorem noext_step (st : State) (x : Step) (hinv : NoExtInv st) : NoExtInv (step
         | exec2 op c =>
           cases resp with
           | rows r =>
-            simp only [recv, hck, finish, setCaller, handleResp]
+            simp only [recv, hck, finish, setCaller, handleResp, hnodes op.node]
             split
             · exact hobjs
             · exact noext_objs_keep _ _ _
@@ -1389,14 +1387,15 @@ def exCols : Id → List Col
   | "m3" => [⟨"a", .int⟩, ⟨"b", .text⟩]
   | _ => []
 
-def exNode (ext : Bool) : Node := ⟨ext, [], fun _ => ⟨0, ⟨"m1", [⟨"a", .int⟩]⟩, .normal, false⟩, false⟩
+def exNode (ext : Bool) : Node := ⟨ext, false, [], fun _ => ⟨0, ⟨"m1", [⟨"a", .int⟩]⟩, .normal, false⟩, false, none⟩
 
 def exState (ext : Bool) : State :=
-  { objs := fun _ => ⟨"", "", RMeta.empty, RMeta.empty⟩, nObjs := 0, slot := fun _ => none,
-    node := fun _ => exNode ext, caller := fun _ => ⟨.idle, .none⟩ }
+  { objs := fun _ => ⟨"", ⟨0, 0⟩, RMeta.empty, RMeta.empty⟩, nObjs := 0, slot := fun _ => none,
+    node := fun _ => exNode ext, caller := fun _ => ⟨.idle, .none⟩, tsCtr := 0 }
 
-example : Inv exCols (exState true) :=
-  ⟨fun _ _ => ⟨rfl, by simp [exState, exNode]⟩, fun _ => goodMeta_empty exCols, fun _ => ⟨trivial, fun _ h => by cases h⟩⟩
+theorem exState_inv : Inv exCols (exState true) :=
+  ⟨fun _ => ⟨rfl, fun _ => ⟨rfl, by simp [exState, exNode]⟩⟩, fun _ => goodMeta_empty exCols,
+   fun _ => ⟨trivial, fun _ h => by cases h⟩⟩
 
 example : NoExtInv (exState false) :=
   ⟨fun _ => rfl, fun _ => ⟨rfl, rfl⟩, fun _ => ⟨trivial, fun _ h => by cases h⟩⟩
@@ -1408,16 +1407,17 @@ example : EventsOK exCols [.event 0 (.schemaChange 0 ⟨"m3", [⟨"a", .int⟩, 
 with the NEW metadata id, rows without metadata decoded with the new columns -/
 def exHistory : List Step :=
   [.start 0 (.prepare 0 0), .serve 0, .recv 0,
-   .start 0 (.execute ⟨0, 0, false, 6, none, none, none, 7⟩), .serve 0, .recv 0,
+   .start 0 (.execute ⟨0, 0, false, 6, none, none, none, none, [7]⟩), .serve 0, .recv 0,
    .event 0 (.schemaChange 0 ⟨"m3", [⟨"a", .int⟩, ⟨"b", .text⟩]⟩), .event 0 (.evict 0),
-   .start 0 (.execute ⟨0, 0, false, 6, none, none, none, 8⟩), .serve 0, .recv 0, .serve 0, .recv 0, .serve 0, .recv 0]
+   .start 0 (.execute ⟨0, 0, false, 6, some 8, some 42, none, none, [8, 9]⟩), .serve 0, .recv 0, .serve 0, .recv 0,
+   .serve 0, .recv 0]
 
 example : (run (exState true) exHistory).2.drop 8 =
-    [.sent 0 (.execute ⟨"q0v0", some "m1", true, [8], 6, none, none, none⟩),
-     .served (.unprepared "q0v0"),
+    [.sent 0 (.execute ⟨⟨0, 0⟩, some "m1", true, [8, 9], 6, some 8, some 42, none, none⟩),
+     .served (.unprepared ⟨0, 0⟩),
      .sent 0 (.prepare "q0"),
-     .served (.prepared ⟨"q0v0", some "m3", false, 2, [⟨"a", .int⟩, ⟨"b", .text⟩]⟩),
-     .sent 0 (.execute ⟨"q0v0", some "m3", true, [8], 6, none, none, none⟩),
+     .served (.prepared ⟨⟨0, 0⟩, some "m3", false, 2, [⟨"a", .int⟩, ⟨"b", .text⟩]⟩),
+     .sent 0 (.execute ⟨⟨0, 0⟩, some "m3", true, [8, 9], 6, some 8, some 42, none, none⟩),
      .served (.rows ⟨true, none, 2, [], none, ⟨2, [.int 800, .text "s8r0c1", .int 810, .text "s8r1c1"]⟩⟩),
      .done (.rows ⟨some "m3", 2, [⟨"a", .int⟩, ⟨"b", .text⟩]⟩
        (some [[.int 800, .text "733872306331"], [.int 810, .text "733872316331"]]) none)] := by
